@@ -219,6 +219,18 @@ CHECKS["C17"] = dict(
          "Counterexamples are replayed concretely in-process. Longer numerals are outside.",
     design="3/C17")
 
+CHECKS["C03"] = dict(
+    engine="symx",
+    technique="SMT (z3 LIA): source program interpreted directly vs. really-assembled Subroutine interpreted by the reference semantics, literals and memory symbolic; structural clause as z3 equalities",
+    text="~1000 (program, route) pairs: every register-or-literal variant of 26 classical/array/allocation instruction forms with labels "
+         "before / after / consecutive / past the end, seeded 2- and 3-command programs with forward and backward jumps, register-pressure "
+         "programs, through assemble_subroutine on IR objects and through parse_text_subroutine on printed text with macros, comments and "
+         "bracketed arguments. Literal values and initial registers / arrays are z3 integers; z3 decides per path equal termination and "
+         "fault reason, equal source-named registers, arrays and returned values, and that the source sequence is preserved.",
+    note="Trusted: z3; vf/refsem.py on both sides (source side extended with literal operands and label targets). Programs longer than "
+         "the bound, overlapping macro names and token lemmas on arbitrary strings are outside (C17 covers printed text).",
+    design="3/C03")
+
 NOT_YET = "check not built yet in this revision (work in progress; see DESIGN.md section 3 for the planned solver-based check)"
 NOT_APPLICABLE = {}
 
